@@ -163,7 +163,8 @@ LEVEL_TEXT["C09"] = {
 PROPS["C07"] = {
     "targets": [vt("props/C07_condvar_vt.cpp", 15000, 60, 150000, 600),
                 vt("props/C07_stop_vt.cpp", 6000, 40, 100000, 600, shards=6),
-                vt("props/C07_permits_vt.cpp", 6000, 40, 100000, 600, shards=6)],
+                vt("props/C07_permits_vt.cpp", 6000, 40, 100000, 600, shards=6),
+                seq("props/C07_osthreads_stress.cpp", 60, 40, 2000, 600, shards=2, engine="E-stress")],
     "rule": "case = 1..3 waiters x 1..3 generations published by a notifier (notify_all, or notify_one when at most one waiter can be waiting; "
             "inside or after the user lock) x per waiter 1..2 waits in {wait(l,pred), wait_for(l,inf,pred), wait_until(l,finite,pred), "
             "wait_until(l,inf) loop, wait(l,stop_token,pred) with a generated request_stop point, wait(l) loop} on condition_variable_any over "
@@ -177,13 +178,20 @@ PROPS["C07"] = {
             "stopped during some wait. Third target (permits): 2..4 waiters of mixed kinds {wait(pred), wait_for(finite,pred), wait_until(finite) loop, "
             "wait_for(inf,pred)} use the cv as a permit counter; the notifier publishes one permit per waiter (+0..1) one at a time with notify_one; "
             "oracle: a waiter gives up only if the harness clock let its deadline pass, permits are conserved, an all-blocked state with a permit "
-            "available is a lost notification; non-trivial iff >=2 waiters blocked and a deadline fired",
+            "available is a lost notification; non-trivial iff >=2 waiters blocked and a deadline fired. Fourth target (plain OS threads, E-stress): "
+            "user lock in {std::mutex, pika's spinlock, test-and-set spin lock, yielding test-and-set lock} x 1..3 waiter std::threads in {wait(l) loop, "
+            "wait(l,pred), wait_for(l,1 year,pred), wait_until(l,now+1 year) loop, wait(l,stop_token,pred)} x notify_all / notify_one (single waiter) "
+            "inside or after the user lock x 500..30000 generations published as soon as every waiter acknowledged the previous one (so notifications "
+            "keep landing while waiters are between enqueue and suspension in the default execution agent) x optional final request_stop for the "
+            "stop-token waiters; no runtime, real threads; oracle: no waiter stays inside a wait whose predicate is true after the notification for it "
+            "returned (10 s without any progress), no notify call hangs, lock owned on return, predicate forms return pred(), year-long deadlines never "
+            "report timeout; non-trivial iff >=2 waiters or >=2000 generations",
     "floor": {"quick": 200, "thorough": 2000},
     "assumptions": ["SC interleavings at hook/agent/user-lock granularity", "spurious wake-ups are allowed; only condition_variable_any runs without the runtime (pika::condition_variable + pika::mutex is covered through C01/C02 programs)"],
 }
 LEVEL_TEXT["C07"] = {
     "text": "The real condition_variable_any (all wait forms incl. stop-token waits) runs on harness-owned virtual threads with the user lock's lock/unlock, the internal cv hook points and every agent operation as schedule decision points. Oracle: every waiter's predicate becomes true at a published generation and every generation is followed by a notification that must reach it, so any all-blocked state is exactly a lost notification; additionally lock ownership on return, predicate/timed/stop-token return values, and 'timeout reported only if the harness clock let the deadline pass'.",
-    "note": "Schedules sampled from generated tapes; pika::condition_variable with pika::mutex needs task ids and is exercised only in the real-runtime programs of C01/C02 (event kinds mutex_cv / timed_cv, channels cv+pika::mutex). Two further E-vt targets: stop-token waits with several stop sources and never-true predicates, and a permit-counter target with mixed timed/untimed waiters under notify_one that counts notifications delivered against waits returned as notified.",
+    "note": "Schedules sampled from generated tapes; pika::condition_variable with pika::mutex needs task ids and is exercised only in the real-runtime programs of C01/C02 (event kinds mutex_cv / timed_cv, channels cv+pika::mutex). Two further E-vt targets: stop-token waits with several stop sources and never-true predicates, and a permit-counter target with mixed timed/untimed waiters under notify_one that counts notifications delivered against waits returned as notified. A fourth target (E-stress) runs condition_variable_any from plain std::threads without a runtime, i.e. through execution_base's default agent that the E-vt targets replace by their own; the schedule is not owned there (start skews and a protocol that aims notifications at the enqueue-to-suspend window), a miss proves nothing.",
     "technique": "property-based testing with harness-owned deterministic schedules (virtual threads), deadlock-as-lost-notification oracle",
 }
 
@@ -252,14 +260,15 @@ LEVEL_TEXT["C04"] = {
 
 PROPS["C03"] = {
     "targets": [rt("props/C03_senders.cpp", 1500, 70, 20000, 900),
-                vt("props/C03_race_vt.cpp", 6000, 40, 100000, 600, shards=6)],
+                vt("props/C03_race_vt.cpp", 6000, 40, 100000, 600, shards=6),
+                seq("props/C03_race_stress.cpp", 150, 40, 4000, 600, shards=2, engine="E-stress")],
     "rule": "case = pipeline term (depth <= 5, <= 15 nodes) over leaves {just, transfer_just, schedule|then, instrumented leaf sender with "
             "channel in value/error/stopped and timing in inline / later on the pool / later on a plain OS thread} and adaptors {then, "
             "then(throw), let_value, let_error, continues_on, drop_value|then, drop_operation_state, require_started, ensure_started, split "
             "(1..3 consumers), split_tuple, unpack, bulk, any_sender copy, when_all (2..3), when_all_vector (1..3)}; every edge erased to "
             "unique_any_sender<P> so the real adaptors compose at run time; terminal = own receiver (connect+start) or sync_wait; run on the "
             "real runtime (1..4 workers, 8 policies, perturbation); non-trivial iff depth >= 3 and (a non-value leaf or a shared-state "
-            "adaptor with an asynchronous leaf beneath it); distinct by hash of the decoded case. Race target (E-vt): adaptor in {split, ensure_started, split(ensure_started), split_tuple, when_all, when_all_vector} over 1..3 leaf senders whose completion (value / error / stopped, inline or by a designated logical thread after a delay) races with 1..3 consumers being connected and started (or dropped unstarted) by other logical threads; decision points at hook sites 120-130 inside the adaptors' predecessor_done / continuation hand-off and finish() counters, at spinlock and agent operations; oracle: every started consumer gets exactly one admissible completion, no predecessor is started twice, any all-blocked/spinning state is a lost completion; non-trivial iff a consumer start overlapped a predecessor completion",
+            "adaptor with an asynchronous leaf beneath it); distinct by hash of the decoded case. Race target (E-vt): adaptor in {split, ensure_started, split(ensure_started), split_tuple, when_all, when_all_vector} over 1..3 leaf senders whose completion (value / error / stopped, inline or by a designated logical thread after a delay) races with 1..3 consumers being connected and started (or dropped unstarted) by other logical threads; decision points at hook sites 120-130 inside the adaptors' predecessor_done / continuation hand-off and finish() counters, at spinlock and agent operations; oracle: every started consumer gets exactly one admissible completion, no predecessor is started twice, any all-blocked/spinning state is a lost completion; non-trivial iff a consumer start overlapped a predecessor completion. Real-thread race target (E-stress): the same adaptors with 2..4 consumers that connect/start at (nearly) the same instant on their own OS threads while one more OS thread per predecessor completes it, repeated for 300..3000 rounds per case with the generated start skews swept over a span of 8..4096 spin iterations; oracle per round: predecessor operation started exactly once, exactly one admissible completion per consumer, no consumer without a signal 5 s after every predecessor completed; non-trivial iff two actors were inside the adaptor at once in some round",
     "floor": {"quick": 100, "thorough": 1000},
     "assumptions": ["when_all with several failing children may deliver any one of their non-value signals (set-valued oracle)",
                     "sync_wait is only used on terms that cannot complete with stopped (its return type cannot express it)",
@@ -267,7 +276,7 @@ PROPS["C03"] = {
 }
 LEVEL_TEXT["C03"] = {
     "text": "Generated sender pipelines are built from the real adaptors (edges type-erased so that terms can be generated at run time), started on the real runtime and judged against a reference interpreter that computes the set of admissible completions of the same term: exactly one signal on the terminal receiver (checked again after a grace barrier), the signal is admissible (value payload / same exception id / stopped), tracked payloads and leaf operation states are balanced (none leaked, none used after destruction), a never-signalled receiver is caught by the state-based quiescence detector.",
-    "note": "Schedules for asynchronous leaves are sampled (perturbation, 1..4 workers); un-erased static compositions are not generated. A second target (E-vt) races the predecessor's completion against consumers being connected/started in split / ensure_started / split_tuple / when_all(_vector) with decision points inside the adaptors (hook sites 120-130); a poisoning quarantine allocator makes touching a destroyed operation state visible.",
+    "note": "Schedules for asynchronous leaves are sampled (perturbation, 1..4 workers); un-erased static compositions are not generated. A second target (E-vt) races the predecessor's completion against consumers being connected/started in split / ensure_started / split_tuple / when_all(_vector) with decision points inside the adaptors (hook sites 120-130); a poisoning quarantine allocator makes touching a destroyed operation state visible. A third target (E-stress) repeats the same races on real OS threads with swept start skews, for windows that contain no decision point for the virtual-thread engine (e.g. the first-start election of split being one read-modify-write); there the schedule is not owned by the harness, a miss proves nothing.",
     "technique": "property-based testing (generated terms, reference interpreter as oracle, lifetime ledger, fork-per-case real runtime)",
 }
 
